@@ -207,7 +207,7 @@ class TasksDontOverlap(TaskConstraint):
     def __init__(self, **data) -> None:
         super().__init__(**data)
 
-        scheduled_assertion = z3.Xor(
+        scheduled_assertion = z3.Or(
             self.task_2._start >= self.task_1._end,
             self.task_1._start >= self.task_2._end,
         )
